@@ -127,6 +127,18 @@ def register(R, tier="quick"):
                     note="real code vs textbook OSA distance; see bounded/fuzzy_bounded.py")
 
 
+    def colfn(tier_, seed):
+        return run_native("columns_bounded.py", [1 if tier_ == "quick" else 2, seed])
+    R.bounded_check("columns-bounded@C08", ["C08"], colfn,
+                    bound="every shipped column type (VarBytes with and without offset table, FixedBytes, RefBytes variable and "
+                          "fixed, Numeric b/B/h/H/i/I/q/Q/d with default 0 and a non-zero default, Bit plain and compressed, "
+                          "Struct, Pickle, CompressedBytes, CompressedBlock, VarBytesList) written at doccount 0, 1, 2, 17, 300, 700 "
+                          "(thorough also 70000) under 7 gap patterns (dense, every third, first half, second half, empty, random, "
+                          "every-seventh-missing past 300) with 5 or 420 distinct values (RefBytes 1-byte -> 2-byte reference "
+                          "switch), column placed at file offset 5; every row read by index, by iteration and through load()",
+                    note="real column writers/readers vs a dict; see bounded/columns_bounded.py")
+
+
     def make_ix(prop):
         def fn(tier_, seed):
             key = ("ix", tier_, seed)
